@@ -220,29 +220,32 @@ Ltac pres_crush :=
 (* ------------------------------------------------------------------ *)
 (* duplication and comparison *)
 
+Lemma map_state_inv {A B} (f : state -> A -> option (B * state)) (I : state -> state -> Prop) :
+  (forall s, I s s) -> (forall a b c, I a b -> I b c -> I a c) ->
+  (forall s x y s1, f s x = Some (y, s1) -> I s s1) ->
+  forall l s ys s', map_state f s l = Some (ys, s') -> I s s'.
+Proof.
+  intros Hr Ht Hf. induction l as [|x tl IH]; intros s ys s' H; cbn in H.
+  - inversion H; subst. apply Hr.
+  - destruct (f s x) as [[y s1]|] eqn:E; [|discriminate].
+    destruct (map_state f s1 tl) as [[ys' s2]|] eqn:E2; [|discriminate]. inversion H; subst.
+    eapply Ht; [eapply Hf; exact E|eapply IH; exact E2].
+Qed.
+
 Lemma dup_ctl fuel : forall st v v' st', dup fuel st v = DOk v' st' -> ctl st' = ctl st.
 Proof.
   induction fuel as [|k IH]; intros st v v' st' H; [discriminate|].
   cbn [dup] in H. destruct v; try (inversion H; subst; reflexivity).
-  - (* list *)
-    destruct (hget st l) as [[items|?|? ?]|] eqn:Hg; try (inversion H; subst; reflexivity).
-    match type of H with context [?g items st []] => set (go := g) in * end.
-    assert (Hgo : forall its s acc r s', go its s acc = Some (r, s') -> ctl s' = ctl s).
-    { induction its as [|i tl IHl]; intros s acc r s' Hs; cbn in Hs.
-      - inversion Hs; reflexivity.
-      - destruct (dup k s i) as [i' s2|] eqn:Hd; [|discriminate].
-        rewrite (IHl _ _ _ _ Hs). eapply IH; eassumption. }
-    destruct (go items st []) as [[items' s1]|] eqn:Hr; [|discriminate].
-    unfold alloc in H. inversion H; subst. rewrite ctl_set_heap. eapply Hgo; eassumption.
+  - destruct (hget st l) as [[items|?|? ?]|] eqn:Hg; try (inversion H; subst; reflexivity).
+    destruct (map_state _ st items) as [[items' s1]|] eqn:Hm; [|discriminate].
+    unfold alloc in H. inversion H; subst. rewrite ctl_set_heap.
+    apply (map_state_inv _ (fun a b => ctl b = ctl a)) in Hm; [exact Hm|reflexivity|intros; congruence|].
+    intros s x y sx Hf. destruct (dup k s x) eqn:Hd; [|discriminate]. inversion Hf; subst. eapply IH; eassumption.
   - destruct (hget st l) as [[?|kvs|? ?]|] eqn:Hg; try (inversion H; subst; reflexivity).
-    match type of H with context [?g kvs st []] => set (go := g) in * end.
-    assert (Hgo : forall its s acc r s', go its s acc = Some (r, s') -> ctl s' = ctl s).
-    { induction its as [|[key i] tl IHl]; intros s acc r s' Hs; cbn in Hs.
-      - inversion Hs; reflexivity.
-      - destruct (dup k s i) as [i' s2|] eqn:Hd; [|discriminate].
-        rewrite (IHl _ _ _ _ Hs). eapply IH; eassumption. }
-    destruct (go kvs st []) as [[kvs' s1]|] eqn:Hr; [|discriminate].
-    unfold alloc in H. inversion H; subst. rewrite ctl_set_heap. eapply Hgo; eassumption.
+    destruct (map_state _ st kvs) as [[kvs' s1]|] eqn:Hm; [|discriminate].
+    unfold alloc in H. inversion H; subst. rewrite ctl_set_heap.
+    apply (map_state_inv _ (fun a b => ctl b = ctl a)) in Hm; [exact Hm|reflexivity|intros; congruence|].
+    intros s x y sx Hf. destruct (dup k s (snd x)) eqn:Hd; [|discriminate]. inversion Hf; subst. eapply IH; eassumption.
 Qed.
 
 Lemma pres_dup_res fuel st v : pres st (dup_res fuel st v).
